@@ -6,7 +6,7 @@ from ..structfmt import linform, lin_eq, local_defs, reaching_def, resolve_local
 from ..util import POS, FACTS, FACTS_I, U, enum_paths, walk_no_nested, is_yield_call
 from ..paths import call_attr, call_name
 from ..sinkproto import SinkProto, check_request, check_response, kinds_of, describe
-from . import c10, c11
+from . import c03, c10, c11
 
 D = 'scales/dispatch.py'
 S = 'scales/sink.py'
@@ -38,6 +38,7 @@ def check(ctx):
   ctx.rule('C01.R7', 'deadline = t_issue + T as a linear form over clock samples taken before any deferral')
   ctx.rule('C01.R8', 'a call is never parked behind something unbounded before its deadline timer is armed')
   ctx.rule('C10.*', 'shared with C10: deadlines rounded up, timer entries cancelled only by flag, only the worker pops (TimeoutError never early)')
+  ctx.rule('C03.R6', 'shared with C03: nothing under the balancer heap lock yields (every completion, including the timeout, needs that lock to release its member)')
   ctx.rule('C11.R3/R4', 'shared with C11: a tag is not released while its request may still be answered (a reply must reach its own call only)')
   ctx.decline('real punctuality of gevent timers/hub; at-least-once when non-I/O library code raises unexpectedly')
   r1(ctx)
@@ -55,6 +56,7 @@ def check(ctx):
   c10.r4(ctx, tq, sch, wk)
   c11.r2_r3(ctx)
   c11.r4(ctx)
+  c03.r6(ctx)
 
 
 def r1(ctx):
